@@ -67,3 +67,4 @@ PROPERTY = {
 # span indices are creation indices: a shrunk history must keep every `ns` op
 for _s in PROPERTY['streams']:
     _s.shrink_keep = lambda op: op.startswith('ns ')
+    _s.model_case = reggen.model_case
